@@ -1,6 +1,6 @@
 PROP = dict(
     gen=["octets"],
-    proof_files=["Properties/C20.v", "Proofs/FlagsProofs.v", "Proofs/OctetTables.v", "Proofs/CivilProofs.v", "Proofs/SmppTimeProofs.v"],
+    proof_files=["Properties/C20.v", "Proofs/FlagsProofs.v", "Proofs/OctetTables.v", "Proofs/CivilProofs.v", "Proofs/SmppTimeProofs.v", "Proofs/SmppTimeEdge.v"],
     model_files=["Model/Flags.v", "Model/Civil.v", "Model/SmppTime.v", "Spec/SmppTimeSpec.v"],
     extra_files=["Properties/Ext_Scalar.v"],   # outside C20 (text form of interface_version): a failure is a note, not a violation
     trusted=["Gen/Octets.v is the complete 256-row tabulation of the running octet codecs (dumper: harness/gen_octets.go)",
